@@ -164,13 +164,13 @@ func (fv *FuncVC) intBin(op token.Token, x, y Term, pos token.Pos, ylit *int64, 
 		r.S = tmod(x.S, y.S)
 	case token.AND:
 		if ylit != nil {
-			if k, ok := isPow2Minus1(*ylit); ok && !s.Signed {
+			if k, ok := isPow2Minus1(*ylit); ok {
 				r.S = app("mod", x.S, pow2(k))
 				return r
 			}
 		}
 		if xlit != nil {
-			if k, ok := isPow2Minus1(*xlit); ok && !s.Signed {
+			if k, ok := isPow2Minus1(*xlit); ok {
 				r.S = app("mod", y.S, pow2(k))
 				return r
 			}
@@ -307,6 +307,17 @@ func (fv *FuncVC) binop(in *ssa.BinOp) Term {
 			return Term{S: smtNot(app("=", x.S, y.S)), Sort: SBool, Go: rt}
 		}
 	case KBytes:
+		// []byte compared with nil
+		if _, isSlice := in.X.Type().Underlying().(*types.Slice); isSlice && isCmp {
+			isnil := app("=", fv.baseOf(x), "0")
+			if c, ok := in.X.(*ssa.Const); ok && c.Value == nil {
+				isnil = app("=", fv.baseOf(y), "0")
+			}
+			if in.Op == token.NEQ {
+				isnil = smtNot(isnil)
+			}
+			return Term{S: isnil, Sort: SBool, Go: rt}
+		}
 		switch in.Op {
 		case token.EQL:
 			return Term{S: fv.strEq(x, y), Sort: SBool, Go: rt}
@@ -510,6 +521,14 @@ func (fv *FuncVC) typeAssert(in *ssa.TypeAssert) {
 			val = Term{S: app(u, app("Iface_ref", x.S)), Sort: fv.sortOf(at), Go: at}
 		}
 	}
+	tinv := "true"
+	if pred, has := fv.P.CS.TypeInvs[types.TypeString(at, nil)]; has {
+		if sf := fv.P.CS.Specs[pred]; sf != nil {
+			env := fv.newEnv(fv.cur, fv.entry)
+			tinv = env.specCall(sf, []Term{val}).S
+			fv.trustedUse["every "+types.TypeString(at, nil)+" value handed to zerolog satisfies "+pred+" (the property's stated exclusion of invalid caller-supplied fragments)"] = true
+		}
+	}
 	if in.CommaOk {
 		okT := fv.fresh("ok", SBool)
 		fv.assert(app("=", okT.S, ok))
@@ -517,6 +536,7 @@ func (fv *FuncVC) typeAssert(in *ssa.TypeAssert) {
 		v := fv.fresh("ta", val.Sort)
 		v.Go = at
 		fv.assert(smtImp(okT.S, app("=", v.S, val.S)))
+		fv.assert(smtImp(okT.S, tinv))
 		fv.assert(smtImp(smtNot(okT.S), app("=", v.S, fv.zero(at).S)))
 		fv.assert(fv.wf(v, at))
 		fv.vals[in] = Val{Tuple: []Val{{T: v}, {T: okT}}}
@@ -526,6 +546,7 @@ func (fv *FuncVC) typeAssert(in *ssa.TypeAssert) {
 	v := fv.fresh("ta", val.Sort)
 	v.Go = at
 	fv.assume(app("=", v.S, val.S))
+	fv.assume(tinv)
 	fv.assert(fv.wf(v, at))
 	fv.vals[in] = Val{T: v}
 }
@@ -540,6 +561,9 @@ type implReq struct {
 var _ = implReq{}
 
 func (fv *FuncVC) implAsserted(at types.Type, fn string) {
+	save := fv.inBlocks
+	fv.inBlocks = false
+	defer func() { fv.inBlocks = save }()
 	// assert facts for tags known now; tags introduced later are handled
 	// because tagOf is also called from here for every known tag type
 	it := at.Underlying().(*types.Interface)
